@@ -327,6 +327,7 @@ impl WriterBuilder {
             writer,
             started: false,
             finished: false,
+            failed: false,
             format: F::default(),
             options: self.0,
         }
@@ -358,6 +359,9 @@ where
     /// Is the writer finished?
     finished: bool,
 
+    /// Did writing to the underlying writer fail, leaving the output incomplete?
+    failed: bool,
+
     /// Determines how the byte stream is formatted
     format: F,
 
@@ -376,6 +380,7 @@ where
             writer,
             started: false,
             finished: false,
+            failed: false,
             format: F::default(),
             options: EncoderOptions::default(),
         }
@@ -414,14 +419,18 @@ where
 
             encoder.encode(idx, &mut buffer);
             if buffer.len() > 8 * 1024 {
-                self.writer.write_all(&buffer)?;
+                self.writer
+                    .write_all(&buffer)
+                    .inspect_err(|_| self.failed = true)?;
                 buffer.clear();
             }
             self.format.end_row(&mut buffer)?;
         }
 
         if !buffer.is_empty() {
-            self.writer.write_all(&buffer)?;
+            self.writer
+                .write_all(&buffer)
+                .inspect_err(|_| self.failed = true)?;
         }
 
         Ok(())
@@ -439,6 +448,11 @@ where
     /// all record batches have been produced. (e.g. producing the final `']'` if writing
     /// arrays.
     pub fn finish(&mut self) -> Result<(), ArrowError> {
+        if self.failed {
+            return Err(ArrowError::JsonError(
+                "Cannot finish JSON writer as an earlier write failed".to_string(),
+            ));
+        }
         if !self.started {
             self.format.start_stream(&mut self.writer)?;
             self.started = true;
